@@ -244,7 +244,15 @@ func build0(sp *spec) (n *ua.NodeID, wf bool, how string) {
 	case "NewStringNodeID":
 		return ua.NewStringNodeID(uint16(sp.Ns), str), sp.Ns < 1<<16, fmt.Sprintf("NewStringNodeID(%d, %q)", sp.Ns, str)
 	case "NewGUIDNodeID":
-		return ua.NewGUIDNodeID(uint16(sp.Ns), str), sp.Ns < 1<<16 && validGUIDText(str), fmt.Sprintf("NewGUIDNodeID(%d, %q)", sp.Ns, str)
+		// any string: an invalid GUID text gives the zero GUID
+		return ua.NewGUIDNodeID(uint16(sp.Ns), str), sp.Ns < 1<<16, fmt.Sprintf("NewGUIDNodeID(%d, %q)", sp.Ns, str)
+	case "decode":
+		// (*NodeID).Decode of arbitrary (possibly truncated) bytes, error ignored: whatever state the public API leaves behind
+		n := &ua.NodeID{}
+		_, err := n.Decode(raw)
+		m, _, _, _, g := ua.VerifNodeIDFields(n)
+		t := m & 0xf
+		return n, t <= 5 && (t != 4 || g != nil), fmt.Sprintf("new(NodeID).Decode(%x) (err=%v)", raw, err)
 	case "NewByteStringNodeID":
 		if sp.Str == nil {
 			return ua.NewByteStringNodeID(uint16(sp.Ns), nil), sp.Ns < 1<<16, fmt.Sprintf("NewByteStringNodeID(%d, nil)", sp.Ns)
@@ -269,7 +277,12 @@ func build0(sp *spec) (n *ua.NodeID, wf bool, how string) {
 		if bid != nil {
 			bs = fmt.Sprintf("%x", bid)
 		}
-		return ua.VerifMakeNodeID(byte(r.Mask), uint16(r.Ns), uint32(r.Nid), bid, gid), false,
+		// well-formed = a value of the struct the public API can produce: valid type nibble, field ranges of that encoding,
+		// a GUID id has a GUID (Data4 of ANY length: the GUID struct is exported)
+		t := r.Mask & 0xf
+		wfRaw := r.Mask >= 0 && r.Mask < 256 && r.Ns >= 0 && r.Ns < 1<<16 && r.Nid >= 0 && r.Nid < 1<<32 &&
+			((t == 0 && r.Ns == 0 && r.Nid < 256) || (t == 1 && r.Ns < 256 && r.Nid < 1<<16) || t == 2 || t == 3 || (t == 4 && gid != nil) || t == 5)
+		return ua.VerifMakeNodeID(byte(r.Mask), uint16(r.Ns), uint32(r.Nid), bid, gid), wfRaw,
 			fmt.Sprintf("raw{mask:%#x, ns:%d, nid:%d, bid:%s, gid:%s}", byte(r.Mask), uint16(r.Ns), uint32(r.Nid), bs, gs)
 	}
 	fmt.Fprintln(os.Stderr, "unknown ctor:", sp.Ctor)
@@ -681,6 +694,16 @@ func (g *G) genID(n int) []kase {
 		add("b", rawSpec(4, 0, 0, nil, &gview{D1: 1, D2: 2, D3: 3, D4: hx(make([]byte, k))}))
 	}
 	add("b", rawSpec(4, 3, 0, nil, nil))
+	// GUID node ids decoded from truncated buffers (type 4, ns, then fewer than 16 GUID bytes)
+	for k := 0; k <= 16; k++ {
+		b := append([]byte{4, 7, 0}, make([]byte, k)...)
+		for i := 3; i < len(b); i++ {
+			b[i] = byte(0x10 + i)
+		}
+		add("b", &spec{Ctor: "decode", Str: phx(string(b))})
+	}
+	add("b", &spec{Ctor: "decode", Str: phx("\x04")})
+	add("b", &spec{Ctor: "decode", Str: phx("\x03\x01\x00\x02\x00\x00\x00ab")})
 	for t := 6; t <= 15; t++ {
 		add("b", rawSpec(t, 0, 0, nil, nil))
 	}
